@@ -544,6 +544,28 @@ def enc_script(script):
     return ";".join("e" if it[0] == "e" else f"{it[0]}{it[1]}:{d(it[2])}" for it in script)
 
 
+def control_value_histories():
+    """histories that assign `gate.control_value` on a live generic Gate(name, controls, targets) object between
+    evaluations: every evaluation reads the current value (run_reads_current_fields), so a value without a documented
+    matrix must be refused AT EVALUATION TIME, the all-ones value / None accepted"""
+    ws = []
+    for name in CONTROLLED:
+        nc, nt = SHAPE[name]
+        k = nc + nt
+        ones = 2 ** nc - 1
+        val = 0.7 if name in ROT else None
+        g = G(name, list(range(nc, k)), list(range(nc)), val=val, via="Gate") if val is not None else \
+            G(name, list(range(nc, k)), list(range(nc)), via="Gate")
+        bad = [v for v in range(2 ** nc) if v != ones]
+        scripts = [[["e"], ["v", 1, bad[0]], ["e"]],
+                   [["v", 1, bad[-1]], ["e"]],
+                   [["v", 1, ones], ["e"], ["v", 1, bad[-1]], ["e"], ["v", 1, None], ["e"]]]
+        for sc in scripts:
+            ws.append({"kind": "retarget", "N": k, "gates": [G("SNOT", [0], []).js(), g.js()], "ug": [], "mode": "normal",
+                       "script": sc})
+    return ws
+
+
 def retarget_witnesses():
     """systematic re-targeting histories for the oracle: every gate class on its minimal register + 1, moved once, placed
     after construction and after a first evaluation; incl. float-only classes (RZX, MS, SWAPALPHA, R, QASMU)"""
@@ -1600,6 +1622,10 @@ class C01(PropertyCheck):
                     if item[0] == "t":
                         qc.gates[i].targets = list(v)
                         cur[i].t = list(v)
+                    elif item[0] == "v":
+                        # gate.control_value = v on the live object: the refusal (or acceptance) must follow the CURRENT value
+                        qc.gates[i].control_value = v
+                        cur[i].cv = v
                     else:
                         qc.gates[i].controls = list(v)
                         cur[i].c = list(v)
@@ -1628,6 +1654,14 @@ class C01(PropertyCheck):
             if not gates:
                 continue
             cases.append((N, gates, ugs, random_script(rng, gates, N), ["retarget", "random", f"N={N}"]))
+        # control_value assigned on live generic Gate objects (oracle: the refusal follows the current value)
+        for w in control_value_histories():
+            inp = {"N": w["N"], "gates": w["gates"], "script": w["script"], "path": "control-value-history"}
+            res.case(inp, True, ["retarget", "control-value-history"])
+            fails, detail = self.oracle_replay(ctx, w)
+            if fails:
+                res.disagree(inp, "refusal / documented matrix for the current control_value", detail,
+                             "an evaluation does not follow the gate's current control_value", w)
         lines, kets = [], []
         for (N, gates, ugs, script, tags) in cases:
             ket = random_state(rng, 2 ** N)
@@ -1725,6 +1759,7 @@ class C01(PropertyCheck):
         systematic += [{"kind": "circuit", "N": N, "gates": [g.js()], "ug": []} for N, g in control_value_gates()]
         systematic += [{"kind": "circuit", "N": N, "gates": [g.js() for g in gs], "ug": []}
                        for N, gs in qft_circuits() + restart_trigger_circuits()[::7]]
+        systematic += control_value_histories()
         systematic += retarget_witnesses()
         systematic += self._controlled_witnesses()
         systematic += angle_sweep()
@@ -1759,6 +1794,9 @@ class C01(PropertyCheck):
                 ws.append({"kind": "circuit", "N": 3, "ug": [], "gates": [G("TOFFOLI", [2], [0, 1], via=via, cv=cv).js()]})
         ws.append({"kind": "circuit", "N": 2, "ug": [], "gates": [G("CNOT", [1], [0], via="Gate", cv=0).js()]})
         ws.append({"kind": "circuit", "N": 3, "ug": [], "gates": [G("FREDKIN", [1, 2], [0], cv=1).js(), G("FREDKIN", [0, 2], [1], via="Gate", cv=1).js()]})
+        # control_value assigned on live generic Gate objects between evaluations (CNOT, TOFFOLI)
+        cvh = control_value_histories()
+        ws += cvh[0:3] + cvh[-3:]
         # re-targeted live gate objects: RZX / SWAP objects placed after construction, RY / CNOT / TOFFOLI moved after a run
         ws.append({"kind": "retarget", "N": 3, "ug": [], "mode": "normal",
                    "gates": [G("SNOT", [0], []).js(), G("RZX", [0, 1], [], val=0.7, via="RZX").js(), G("SWAP", [0, 1], [], via="SWAP").js()],
